@@ -107,6 +107,23 @@ CHECKS["C08"] = dict(engine="sync-checkpoints", ref="4 (Engine SYNC, C08)", leve
          "just before the call must have run before it returns. The table is covered completely on every run "
          "(exhaustive: true); repetitions vary the bystander load.")
 
+_mem = dict(engine="mem", technique="deterministic simulation: seeded sender/receiver programs on a seeded virtual-time "
+            "asyncio loop with cancellations and closes injected at seeded cycles; conservation / order / FIFO / "
+            "truthfulness oracles over the recorded history and at every record")
+CHECKS["C12"] = dict(_mem, ref="4 (Engine MEM, C12)",
+    text="Seeded search over memory-object-stream programs (buffer 0/1/2/3/inf, 1-4 sender and receiver clones, blocking and "
+         "*_nowait calls, async for, unique items) with cancellation of blocked sends/receives at every relative cycle. "
+         "Oracles: every accepted item is received exactly once or still buffered; nothing invented or duplicated; an item "
+         "whose send was cancelled is delivered at most once; per-sender order at every receiver; blocked parties served in "
+         "waiting order (judged at grant time); buffer never above max_buffer_size; no item stranded while live receivers "
+         "wait. Exploration level.")
+CHECKS["C13"] = dict(_mem, ref="4 (Engine MEM, C13)",
+    text="Same engine biased to clone()/close() histories. Oracles against the model's clone sets: EndOfStream only when all "
+         "send clones are closed and nothing is buffered or pending; BrokenResourceError only when all receive clones are "
+         "closed; ClosedResourceError exactly for operations on a handle closed before the call; closing the last clone of a "
+         "side wakes every blocked task of the other side within 3 loop cycles (no deadlock); statistics().open_* equal the "
+         "model at every record; closing twice is a no-op. Exploration level.")
+
 NOT_YET = "check not built yet in this snapshot of /verif (work in progress; see DESIGN.md section 4 for the plan)"
 
 
@@ -131,7 +148,7 @@ def main():
     engines = {}
     for pid, c in CHECKS.items():
         engines.setdefault(c["engine"], []).append(pid)
-    paths = {"sync-permits": "engines/permits.py", "sc": "engines/sc.py", "sync-conditions": "engines/conds.py", "sync-checkpoints": "engines/checkpoints.py"}
+    paths = {"sync-permits": "engines/permits.py", "sc": "engines/sc.py", "sync-conditions": "engines/conds.py", "sync-checkpoints": "engines/checkpoints.py", "mem": "engines/mem.py"}
     try:
         hooks = [l.split()[0] for l in subprocess.run(
             ["git", "-C", "/repo", "log", "--format=%h %s", "--grep=^hook:"], capture_output=True, text=True
